@@ -77,7 +77,7 @@ PROP = {
             "functions": ["maybe_create_scmp_reply"],
             "harnesses": [
                 H("c14_sim_no_reply_to_scmp_error_or_malformed_n64", "B", tier="experimental", bound="packet <= 64 B (all bytes and length symbolic)",
-                  what="simulator: no SCMP reply to an SCMP error message or to a malformed SCMP packet", timeout=2400),
+                  what="simulator: no SCMP reply to an SCMP error message or to a malformed SCMP packet - killed at 18 GB after 22 min", timeout=2400),
             ],
         },
     ],
